@@ -612,7 +612,7 @@ func init() {
 			"quick":    "all 144 ordered pairs of the twelve kinds on shapes of up to three positions (and a polygon with a triangular hole against the leaf kinds, both ways) with ALL real coordinates for the duality / wrapper-transparency clauses (Circle built with steps=3, its polygon coordinates being opaque trigonometric terms; and again with a CONCRETE circle at (10,20), radius 1000 m, whose polygon is computed by libm on constants, against every symbolic partner); all 121 ordered pairs of the eleven non-Circle kinds with one fixed small shape each and the second under ALL real translations for the semantic clauses (symmetry of intersects, contains => intersects and rectangle cover, intersects => rectangles intersect, self-containment, Rect == five-point polygon)",
 			"thorough": "as quick, and the semantic clauses for all four combinations of the two base shapes (right triangle / flat triangle) of the pair",
 		},
-		Outside:     []string{"Circle in the semantic clauses (C13: not applicable)", "larger shapes than three positions per object; collections of more than two children", "Rect transparency is checked for the fixed shapes under all translations, not for all rectangles"},
+		Outside:     []string{"Circle in the semantic clauses, except a concrete Circle (centre (0,0), 1000 m, steps 3) as second operand of a Polygon / Rect under ALL real translations (contains => intersects, contains => rectangle covers, Rect == five-point polygon); Point-like partners of a Circle go through the opaque haversine (C13: not applicable)", "larger shapes than three positions per object; collections of more than two children", "Rect transparency is checked for the fixed shapes under all translations, not for all rectangles"},
 		Stubs:       []string{"Segment.Raycast, Segment.IntersectsSegment -> specs (proved in-run)", "geo.* trigonometry: opaque finite values for symbolic arguments; Go's own libm evaluated natively for concrete arguments"},
 		Assumptions: commonAssumptions,
 	}
@@ -635,6 +635,11 @@ func init() {
 			}
 		}
 		for a := 0; a < 12; a++ {
+			if a == 3 || a == 4 {
+				// a concrete Circle as the second operand, the first operand (Polygon, Rect: kinds that meet a Circle
+				// through its polygon, not through the opaque haversine) under every translation
+				out = append(out, Job{Pkg: "geojson", Harness: "H_Obj_Sem", Params: []int{a, 5, 2, 1}, Timeout: 120, Contracts: c, NoCover: true})
+			}
 			for b := 0; b < 12; b++ {
 				if a == 5 || b == 5 {
 					continue
